@@ -6,12 +6,12 @@ CONF_U = {"conf_outcome", "conf_values", "conf_end"}
 CONF_P = {"conf_pack_outcome", "conf_out"}
 
 PROFILES = {
- "C06": dict(universes=["U_C06", "U_Long"], invs=["Inv_Machine", "Inv_C04_Exact", "Inv_C12_Shape"],
+ "C06": dict(universes=["U_C06", "U_Long", "U_LongC06"], invs=["Inv_Machine", "Inv_C04_Exact", "Inv_C12_Shape"],
              owned=CONF_U | CONF_P, rand="data", c01=False, bonus=2,
              nrand=(600, 6000)),
  "C08": dict(universes=["U_C08", "U_C01_Root"], invs=["Inv_Machine", "Inv_C04_Exact", "Inv_C12_Shape"],
              owned=CONF_U | CONF_P, rand="control", c01=False, bonus=1, nrand=(600, 6000)),
- "C10": dict(universes=["U_C10"], invs=["Inv_Machine", "Inv_C10_Same", "Inv_C10_Least", "Inv_C01_Fill"],
+ "C10": dict(universes=["U_C10", "U_LongAligned"], invs=["Inv_Machine", "Inv_C10_Same", "Inv_C10_Least", "Inv_C01_Fill"],
              owned={"conf_evs", "conf_pevs", "conf_end", "conf_writes", "conf_out", "conf_outcome", "conf_pack_outcome",
                     "C10_Same", "C10_Least", "C01_Fill"},
              rand="position", c01=True, bonus=1, nrand=(600, 6000),
@@ -19,14 +19,14 @@ PROFILES = {
              # parse and of the following pack may differ without any fault)
              extra=[("U_C10_Desc", ["Inv_Machine"], {"conf_evs", "conf_pevs", "conf_end", "conf_writes", "conf_out",
                                                      "conf_outcome", "conf_values"})]),
- "C12": dict(universes=["U_C12", "U_C10_Flat"], invs=["Inv_Machine", "Inv_C12_Shape"],
+ "C12": dict(universes=["U_C12", "U_C10_Flat", "U_LongC12"], invs=["Inv_Machine", "Inv_C12_Shape"],
              owned={"conf_err", "conf_perr", "conf_err_depth", "C12_Shape", "C12.unpack_raises_only_PacketError",
                     "C12.pack_raises_only_PacketError", "C12.str_total", "C12.phase", "C12.silent",
                     "C12.not_bytes", "C04_OverAccept"},
              rand="mixed", c01=False, bonus=1, nrand=(800, 8000)),
- "C04": dict(universes=["U_C06", "U_C07_24", "U_C12", "U_C04_Lone", "U_Long"], invs=["Inv_Machine", "Inv_C04_Exact"],
+ "C04": dict(universes=["U_C06", "U_C07_24", "U_C12", "U_C04_Lone", "U_Long", "U_LongC06"], invs=["Inv_Machine", "Inv_C04_Exact"],
              owned={"C04_Exact", "C04_OverAccept"}, rand="mixed", c01=False, bonus=1, nrand=(800, 8000)),
- "C01": dict(universes=["U_C01"], quick_universes=["U_C01_Q"], invs=["Inv_Machine", "Inv_C01_Bytes", "Inv_C01_Fill", "Inv_C01_Len",
+ "C01": dict(universes=["U_C01", "U_LongC01"], quick_universes=["U_C01_Q", "U_LongC01"], invs=["Inv_Machine", "Inv_C01_Bytes", "Inv_C01_Fill", "Inv_C01_Len",
                                         "Inv_C01_OverlapRaises", "Inv_C01_RaiseOnlyOnOverlap"],
              owned={"C01_Bytes", "C01_Fill", "C01_Len", "C01_OverlapRaises", "C01_RaiseOnlyOnOverlap"},
              rand="c01", c01=True, bonus=1, nrand=(800, 8000)),
